@@ -34,21 +34,21 @@ def rand_wire(rnd, special, layers, vias):
     layer = rnd.choice(layers)
     width = rnd.choice([100, 140, 200]) if special else -1
     x, y = rnd.randint(0, 50) * 10, rnd.randint(0, 50) * 10
-    elems = [dict(v=False, x=x, y=y, name='', orient='', do=[])]
+    elems = [dict(v=False, x=x, y=y, ext=rnd.choice([-1, -1, -1, 25]), name='', orient='', do=[])]
     n = rnd.randint(1, 5)
     for k in range(n):
         r = rnd.random()
         if r < 0.6 or (k == n - 1 and len(elems) == 1 and rnd.random() < 0.7):
             pat = rnd.choice(['xy', 'x*', '*y', '**', 'x*', '*y'])
             elems.append(dict(v=False, x=-1 if pat[0] == '*' else rnd.randint(0, 50) * 10, y=-1 if pat[1] == '*' else rnd.randint(0, 50) * 10,
-                              name='', orient='', do=[]))
+                              ext=rnd.choice([-1, -1, -1, -1, 0, 35, 70]), name='', orient='', do=[]))
         else:
             v = rnd.choice(vias)
             if special:
                 do = [rnd.randint(1, 3), rnd.randint(1, 3), rnd.choice([10, 20, 35]), rnd.choice([10, 15, 40])] if rnd.random() < 0.5 else []
-                elems.append(dict(v=True, x=0, y=0, name=v, orient='', do=do))
+                elems.append(dict(v=True, x=0, y=0, ext=-1, name=v, orient='', do=do))
             else:
-                elems.append(dict(v=True, x=0, y=0, name=v, orient=rnd.choice(ORI) if rnd.random() < 0.5 else '', do=[]))
+                elems.append(dict(v=True, x=0, y=0, ext=-1, name=v, orient=rnd.choice(ORI) if rnd.random() < 0.5 else '', do=[]))
     return dict(layer=layer, width=width, elems=elems)
 
 
@@ -67,7 +67,7 @@ def render_wire(w, special, rnd):
                 t += ' ' + e['orient']
             parts.append(t)
         else:
-            parts.append('( %s %s )' % ('*' if e['x'] < 0 else e['x'], '*' if e['y'] < 0 else e['y']))
+            parts.append('( %s %s%s )' % ('*' if e['x'] < 0 else e['x'], '*' if e['y'] < 0 else e['y'], '' if e['ext'] < 0 else ' %d' % e['ext']))
     return ' '.join(parts)
 
 
@@ -165,6 +165,11 @@ def make_case(rnd):
     recs = []
     base = dict(kind='net', wires=[], layers=[], vtypes=[], gotw=[], gotv=[], exp={}, got={}, raised=False, net='')
     try:
+        if rnd.random() < 0.3:        # history: a truncated file fails to parse; the next parse must not be affected
+            try:
+                def_file.parse(render(make_file(rnd), rnd)[:-rnd.randint(20, 200)])
+            except Exception:
+                pass
         df = def_file.parse(text)
         exp, got = expected_sections(d), got_sections(df)
         recs.append(dict(base, kind='sections', exp={k: flat(v) for k, v in exp.items()}, got={k: flat(v) for k, v in got.items()}))
@@ -175,7 +180,7 @@ def make_case(rnd):
                     pn = parsed[n['name']]
                     ww, vv = pn.wires, pn.vias
                     r['layers'] = sorted(ww)
-                    r['gotw'] = [[[(-1 if w is None else int(w)), [[-1 if c is None else int(c) for c in p[:2]] for p in pts]] for w, pts in ww[l]] for l in r['layers']]
+                    r['gotw'] = [[[(-1 if w is None else int(w)), [[-1 if c is None else int(c) for c in p] for p in pts]] for w, pts in ww[l]] for l in r['layers']]
                     r['vtypes'] = sorted(vv)
                     r['gotv'] = [[[int(x), int(y), str(o)] for x, y, o in vv[t]] for t in r['vtypes']]
                 except Exception as e:
@@ -224,7 +229,7 @@ def main(tier=None, replay=None):
             ck.count('files')
     ck.need_cover(['wires', 'wildcards', 'via-arrays', 'oriented-vias', 'regular-net-wires', 'special-net-wires', 'files'])
     ck.sample(dict(def_text=texts[0][-600:], net=[x for x in recs if x['kind'] == 'net' and x['wires']][0]))
-    ck.assumptions += ['supported grammar subset: non-negative coordinates, two-number points, ROUTED wiring', 'the DEF renderer and the section normaliser of the harness (trusted)',
+    ck.assumptions += ['supported grammar subset: non-negative coordinates, ROUTED wiring', 'the DEF renderer and the section normaliser of the harness (trusted)',
                        'TLC, JSON reader']
     return ck.finish('seeded random abstract DEF files (all sections) x nets with 0..3 wire segments x point sequences of <= 6 elements over all wildcard patterns, '
                      'vias with/without orientation and via arrays; distinct by (file text, net)')
